@@ -2,6 +2,7 @@ package main
 
 import (
 	"fmt"
+	"sort"
 	"strings"
 
 	"golang.org/x/tools/go/ssa"
@@ -19,6 +20,7 @@ func init() {
 func runC17(c *Ctx, r *Report) {
 	c17Read(c, r)
 	c17Handle(c, r, "C17.R3")
+	c17Limiters(c, r, "C17.R5")
 }
 
 func c17Read(c *Ctx, r *Report) {
@@ -296,4 +298,129 @@ func c17Handle(c *Ctx, r *Report, rule string) {
 			r.check(len(problems) == 0, rule, fnName, name, c.pos(fn.Pos()), fmt.Sprintf("%d paths", len(paths)), strings.Join(dedup(problems), "\n"))
 		}
 	}
+}
+
+// c17Limiters: the parameters of every token bucket are the configured ones. A limiter admits burst + rate*T bytes
+// in any window T, so the bound the user configured holds only if rate and burst of the per-connection limiter are
+// read_bytes_per_second/read_burst_size and those of the handler-wide one total_read_bytes_per_second/
+// total_read_burst_size - nothing else (no rate.Inf, no constant, not the sibling's option), and if the default
+// burst of each is derived from its own rate.
+func c17Limiters(c *Ctx, r *Report, rule string) {
+	r.rule(rule, "limiter parameters: every rate.NewLimiter in the throttle package takes as rate exactly one of the options read_bytes_per_second / total_read_bytes_per_second and as burst the burst option of the same scope; the result is used as the limiter of that scope (localLimiter / totalLimiter); every default written to a burst option derives from the rate option of the same scope", 4)
+	pkg := "modules/l4throttle"
+	pairs := map[string][2]string{
+		"ReadBytesPerSecond":      {"ReadBurstSize", "localLimiter"},
+		"TotalReadBytesPerSecond": {"TotalReadBurstSize", "totalLimiter"},
+	}
+	hname := pkg + ".Handler"
+	n := 0
+	for _, fn := range c.Funcs {
+		if !strings.HasPrefix(fname(fn), pkg+".") {
+			continue
+		}
+		for _, ci := range callsIn(fn) {
+			if !strings.HasSuffix(calleeID(ci), "x/time/rate.NewLimiter") {
+				continue
+			}
+			call, ok := ci.(*ssa.Call)
+			if !ok {
+				continue
+			}
+			n++
+			args := ci.Common().Args
+			rl := leafSet(c.originsIP(fn, args[0], 0), false)
+			bl := leafSet(c.originsIP(fn, args[1], 0), false)
+			key := fmt.Sprintf("NewLimiter#%d", n)
+			scope := ""
+			for rateF := range pairs {
+				if len(rl) == 1 && rl[0] == "field:"+hname+"."+rateF {
+					scope = rateF
+				}
+			}
+			if scope == "" {
+				r.bad(rule, fname(fn), key, c.ipos(ci), "the limiter's rate is not exactly one of the configured rate options (it derives from "+strings.Join(rl, ", ")+"): the bytes admitted in a window are no longer bounded by burst + configured rate x T")
+				continue
+			}
+			wantB := "field:" + hname + "." + pairs[scope][0]
+			if !(len(bl) == 1 && bl[0] == wantB) {
+				r.bad(rule, fname(fn), key, c.ipos(ci), "the burst of the limiter built on "+scope+" derives from "+strings.Join(bl, ", ")+", expected only "+wantB)
+				continue
+			}
+			// where the limiter goes: the field of its scope
+			used := c17LimiterUse(c, call, 0)
+			want := pairs[scope][1]
+			r.check(len(used) == 1 && used[0] == want, rule, fname(fn), key, c.ipos(ci), "rate "+scope+", burst "+pairs[scope][0]+", used as "+want, "the limiter built from "+scope+" is used as "+strings.Join(used, ", ")+", expected "+want)
+		}
+	}
+	if n == 0 {
+		r.bad(rule, pkg, "limiters are constructed", "-", "no rate.NewLimiter call found in the throttle package")
+	}
+	// defaults written to the burst options
+	nd := 0
+	for _, fn := range c.Funcs {
+		if !strings.HasPrefix(fname(fn), pkg+".") || strings.Contains(fname(fn), "Unmarshal") {
+			continue
+		}
+		for rateF, p := range pairs {
+			for _, st := range storesToField(fn, hname, p[0]) {
+				nd++
+				ls := leafSet(c.originsIP(fn, st.Val, 0), true)
+				good := len(ls) == 1 && ls[0] == "field:"+hname+"."+rateF
+				r.check(good, rule, fname(fn), "default of "+p[0], c.ipos(st), "derived from "+rateF+" only", "the default written to "+p[0]+" derives from "+strings.Join(ls, ", ")+" instead of "+rateF+" alone: a connection (or the handler) is admitted a burst that its own configured rate does not justify")
+			}
+		}
+	}
+	if nd == 0 {
+		r.ok(rule, pkg, "burst defaults", "-", "no default is written to a burst option")
+	}
+}
+
+// c17LimiterUse: the fields a value ends up in (through phis, cells, struct literals and helper results).
+func c17LimiterUse(c *Ctx, v ssa.Value, depth int) []string {
+	seen := map[ssa.Value]bool{}
+	found := map[string]bool{}
+	var walk func(v ssa.Value, fn *ssa.Function, d int)
+	walk = func(v ssa.Value, fn *ssa.Function, d int) {
+		if v == nil || seen[v] || d > 8 || v.Referrers() == nil {
+			return
+		}
+		seen[v] = true
+		for _, ref := range *v.Referrers() {
+			switch x := ref.(type) {
+			case *ssa.Phi:
+				walk(x, fn, d+1)
+			case *ssa.Store:
+				if x.Val != v {
+					continue
+				}
+				if _, _, f, ok := fieldAddr(x.Addr); ok {
+					found[f] = true
+				} else if al, ok := x.Addr.(*ssa.Alloc); ok {
+					for _, r2 := range *al.Referrers() {
+						if u, ok := r2.(*ssa.UnOp); ok {
+							walk(u, fn, d+1)
+						}
+					}
+				}
+			case *ssa.Return:
+				sites, _ := c.callSitesOf(fn)
+				for _, cs := range sites {
+					if cv, ok := cs.(*ssa.Call); ok {
+						walk(cv, cs.Parent(), d+1)
+					}
+				}
+			case *ssa.MakeInterface, *ssa.ChangeType:
+				walk(x.(ssa.Value), fn, d+1)
+			}
+		}
+	}
+	if in, ok := v.(ssa.Instruction); ok {
+		walk(v, in.Parent(), depth)
+	}
+	var out []string
+	for f := range found {
+		out = append(out, f)
+	}
+	sort.Strings(out)
+	return out
 }
